@@ -415,8 +415,9 @@ class QuantifierToken(PostfixOperator[NFARegexBuilder]):
 
     @classmethod
     def from_match(cls: Type[Self], match: re.Match) -> QuantifierToken:
-        lower_bound_str = match.group(1)
-        upper_bound_str = match.group(2)
+        # Blanks are ignored, also in the place of an omitted bound
+        lower_bound_str = match.group(1).strip()
+        upper_bound_str = match.group(2).strip()
 
         lower_bound = 0 if not lower_bound_str else int(lower_bound_str)
         upper_bound = None if not upper_bound_str else int(upper_bound_str)
